@@ -250,13 +250,15 @@ func NewScenario(kind Kind, r spec.Req, dev *spec.Device, excCode int) (Scenario
 
 // Options of one execution.
 type Options struct {
-	ReadTimeout   time.Duration
-	PortTimeout   time.Duration
-	WithHooks     bool
-	MaxReads      int
-	NotConnected  bool // do not call Connect (network clients) / pass a nil port (serial)
-	NilRequest    bool
-	CancelBefore  bool // context already cancelled when Do is called
+	ReadTimeout  time.Duration
+	PortTimeout  time.Duration
+	WithHooks    bool
+	MaxReads     int
+	NotConnected bool // do not call Connect (network clients) / pass a nil port (serial)
+	NilRequest   bool
+	CancelBefore bool // context already cancelled when Do is called
+	// CtxTimeout > 0: the caller's context carries a deadline that many VIRTUAL nanoseconds after the call starts
+	CtxTimeout    time.Duration
 	FlushErr      error
 	ReplyOverride []byte // deliver these bytes instead of the scenario's reply (corruption checks)
 }
@@ -297,6 +299,11 @@ func Execute(sc Scenario, q packet.Request, pol Policy, o Options) (run Run) {
 	t.Cancel = cancel
 	if o.CancelBefore {
 		cancel()
+	}
+	if o.CtxTimeout > 0 {
+		var c2 context.CancelFunc
+		ctx, c2 = vtime.WithTimeout(ctx, o.CtxTimeout)
+		defer c2()
 	}
 	var hooks modbus.ClientHooks
 	if o.WithHooks {
